@@ -35,7 +35,12 @@ type DirConfig struct {
 	// EmptyReads > 0: a Read that has data available returns (0, nil) with
 	// probability 1/EmptyReads instead, never twice in a row
 	EmptyReads int
-	Faults     []Fault
+	// EOFWithData: the Read that delivers the last bytes of a stream whose writer has closed
+	// returns them together with io.EOF, as io.Reader allows ("callers should always process the
+	// n > 0 bytes returned before considering the error") and HTTP bodies and iotest.DataErrReader
+	// do; later Reads return (0, io.EOF)
+	EOFWithData bool
+	Faults      []Fault
 	// StallFor > 0: the byte at stream offset StallOff, and with it everything after it, is
 	// delivered StallFor later than it would have been (an outage, a congested link, a peer
 	// whose machine is busy): no byte is lost or changed, only time passes.
@@ -122,6 +127,7 @@ type Stats struct {
 	ShortReads            int // reads that returned less than was available
 	OneByteReads          int
 	EmptyReads            int
+	EOFWithData           int
 	WriterBlocked         int
 	ReaderBlocked         int
 	FaultsFired           map[int]int
@@ -396,6 +402,10 @@ func (s *stream) read(p []byte) (int, error) {
 				rt.Tracef("read %s %d of %d available", s.name, n, av)
 			}
 			wake(&s.wwait)
+			if s.cfg.EOFWithData && s.closedW && !s.reset && len(s.segs) == 0 {
+				s.stats.EOFWithData++
+				return n, io.EOF
+			}
 			return n, nil
 		}
 		if expired(s.rdl) {
